@@ -27,7 +27,9 @@ func H_C04_parse(id, n int) {
 	vReach("end")
 }
 
-func fieldOK(f PField, n int) bool { return int(f.Offs)+int(f.Len) <= n && int(f.Offs+f.Len) >= int(f.Offs) }
+func fieldOK(f PField, n int) bool {
+	return int(f.Offs)+int(f.Len) <= n && int(f.Offs+f.Len) >= int(f.Offs)
+}
 
 func fromFieldsOK(f *PFromBody, n int) bool {
 	return fieldOK(f.Name, n) && fieldOK(f.URI, n) && fieldOK(f.Tag, n) && fieldOK(f.Params, n) && fieldOK(f.V, n)
